@@ -50,11 +50,16 @@ func quoteState(name string) tokenizers.IQuoteState {
 
 func execC14(seg []Ev) []Ev {
 	out := make([]Ev, 0, len(seg))
+	kp := &keeper{}
+	states := map[string]tokenizers.IQuoteState{} // one state object per segment: single-event segments see a new one
 	for _, in := range seg {
 		op, st := toStr(in["op"]), toStr(in["state"])
 		q := rune(toInt(in["q"]))
 		e := Ev{"op": op, "state": st, "q": int(q)}
-		qs := quoteState(st)
+		if states[st] == nil {
+			states[st] = quoteState(st)
+		}
+		qs := states[st]
 		switch op {
 		case "codec":
 			s := string(toRunes(in["s"]))
@@ -74,6 +79,9 @@ func execC14(seg []Ev) []Ev {
 			if det != "" {
 				e["detail"] = det
 			}
+			kp.check(e)
+			d2, e2 := dec, enc
+			kp.keep("decoded / encoded text of an earlier call", func() string { return d2 + "|" + e2 })
 		case "decode":
 			raw := string(toRunes(in["raw"]))
 			e["raw"] = cps(raw)
@@ -179,6 +187,33 @@ func genC14(g *Gen) {
 					g.Run(gen, []Ev{{"op": "read", "state": st, "s": cpsR(s), "q": int(q), "tail": cpsR(tails[st][1])}})
 				}
 			}
+		}
+	}
+	// quote characters that mean something to formatting / pattern functions
+	for _, q := range []rune{'%', '\\', '$', '{', '*', '^', '`', '|', 0xab} {
+		for _, s := range []string{"ABC", "", "a%sb", string(q), "x" + string(q) + string(q) + "y", "%d%%", "\\n$1{0}"} {
+			for _, st := range states {
+				if st == "expression" && q != '`' {
+					continue
+				}
+				g.Run("unusual quote characters", []Ev{{"op": "codec", "state": st, "s": cps(s), "q": int(q)}})
+				if st == "csv" {
+					g.Run("unusual quote characters", []Ev{{"op": "read", "state": st, "s": cps(s), "q": int(q), "tail": cpsR(tails[st][1])}})
+				}
+			}
+		}
+	}
+	// one long-lived state: many values, every result kept and looked at again later
+	rk := g.Rand()
+	for _, st := range states {
+		for rep := 0; rep < g.Pick(20, 400); rep++ {
+			var seg []Ev
+			for k := 0; k < 4+rk.Intn(12); k++ {
+				q := quotes[rk.Intn(2)]
+				s := []string{"say " + string(q) + "hi" + string(q), "plain", string(q) + string(q), "a" + string(q) + "b" + string(q) + "c", "", "é" + string(q), "1234567", strings.Repeat(string(q), 5)}[rk.Intn(8)]
+				seg = append(seg, Ev{"op": "codec", "state": st, "s": cps(s), "q": int(q)})
+			}
+			g.Run("one long-lived state, results kept", seg)
 		}
 	}
 	// rare code points inside the string
